@@ -127,7 +127,7 @@ pub fn run(ctx: &Ctx) {
         }
     }
     ctx.set_extra("exhaustive_spaces", serde_json::json!(["len mod block for block 32 and 192 (k = 0,1,2 full blocks before the final one), both stream-level entry points"]));
-    let per = ctx.tier.scale(300, 15);
+    let per = ctx.tier.scale(1000, 10);
     let co = CfgOpts { allow_multithread: true, ..Default::default() };
     ctx.search("stream", 16, per, &|| stream_case_strategy(co, InOpts::default(), true), check);
     ctx.search("tiny-final", 16, per, &|| {
